@@ -11,6 +11,7 @@ R-C13.3  `compile_variable_idx` = number of non-monomorphised parameters before 
          (all masks up to length 4).
 R-C13.4  instantiate_partial, interpreted on all argument lists of length <= 3 (c13_partial.py, below);
          TupleType.transform keeps `preserve`.
+R-C13.5  partially_monomorphize_args agrees with its specification on the basic parameter lists (c13_mono.py).
 Not decided: run-time results of monomorphised code, HUGR validity.
 """
 
@@ -214,3 +215,8 @@ def run(ctx: Ctx) -> None:
     tt = idx.method("TupleType", "transform", "guppylang_internals.tys.ty")
     ctx.check("self.preserve" in ast.unparse(tt.node), "R-C13.4", f"{tt.qualname}#keeps-preserve", tt.where, {},
               "a transformed tuple type loses the flag that keeps instantiated tuples from being flattened")
+
+    # ------------------------------------------------------------ R-C13.5 which arguments are monomorphised
+    from . import c13_mono
+    c13_mono.run(ctx)
+
